@@ -163,3 +163,98 @@ func TestC18BridgeConcurrent(t *testing.T) {
 		c.Count("messages", int64(total0+total1))
 	})
 }
+
+const ruleBridgeTick = "Tick against Reorder: 10..60 messages are written to one endpoint (nothing handed over yet), then one goroutine calls Tick until everything is delivered while another calls Reorder on that direction 1..40 times with drawn pauses of 0..50 us; Reorder loses and invents nothing, so the collecting reader must end up with exactly the written messages, each once, unmodified, whatever the order; non-trivial = every case; distinct by hash of the plan"
+
+func TestC18BridgeTickVsReorder(t *testing.T) {
+	r := ev.New("C18", "bridge-tick-vs-reorder", ruleBridgeTick)
+	r.Check(t, func(t *rapid.T, c *ev.Case) {
+		n := rapid.IntRange(10, 60).Draw(t, "messages")
+		nre := rapid.IntRange(1, 40).Draw(t, "reorders")
+		pauses := make([]time.Duration, nre)
+		for i := range pauses {
+			pauses[i] = time.Duration(rapid.IntRange(0, 50).Draw(t, "pauseUs")) * time.Microsecond
+		}
+		dir := rapid.IntRange(0, 1).Draw(t, "dir")
+		c.Op("messages %d reorders %d dir %d", n, nre, dir)
+		c.NonTrivial()
+		br := test.NewBridge()
+		conns := [2]interface {
+			Write([]byte) (int, error)
+			Read([]byte) (int, error)
+			Close() error
+		}{br.GetConn0(), br.GetConn1()}
+		var mu sync.Mutex
+		var got [][]byte
+		done := make(chan struct{})
+		go func() {
+			defer close(done)
+			buf := make([]byte, 64)
+			for {
+				k, err := conns[1-dir].Read(buf)
+				if err != nil {
+					return
+				}
+				mu.Lock()
+				got = append(got, append([]byte(nil), buf[:k]...))
+				mu.Unlock()
+			}
+		}()
+		mk := func(i int) []byte {
+			p := make([]byte, 12)
+			binary.BigEndian.PutUint32(p, uint32(i))
+			binary.BigEndian.PutUint64(p[4:], uint64(i)*0x9E3779B97F4A7C15)
+			return p
+		}
+		for i := 0; i < n; i++ {
+			if _, err := conns[dir].Write(mk(i)); err != nil {
+				t.Fatalf("C18: Write: %v", err)
+			}
+		}
+		var wg sync.WaitGroup
+		wg.Add(1)
+		go func() {
+			defer wg.Done()
+			for _, p := range pauses {
+				_ = br.Reorder(dir)
+				if p > 0 {
+					time.Sleep(p)
+				}
+			}
+		}()
+		limit := time.Now().Add(5 * time.Second)
+		for br.Len(dir) > 0 && time.Now().Before(limit) {
+			if br.Tick() == 0 {
+				time.Sleep(20 * time.Microsecond) // the reader has not come back to Read yet
+			}
+		}
+		wg.Wait()
+		for br.Len(dir) > 0 && time.Now().Before(limit) {
+			if br.Tick() == 0 {
+				time.Sleep(20 * time.Microsecond)
+			}
+		}
+		_ = conns[0].Close()
+		_ = conns[1].Close()
+		br.Tick()
+		br.Tick()
+		<-done
+		mu.Lock()
+		defer mu.Unlock()
+		seen := map[uint32]bool{}
+		for k, m := range got {
+			if len(m) != 12 || int(binary.BigEndian.Uint32(m)) >= n || !bytes.Equal(m, mk(int(binary.BigEndian.Uint32(m)))) {
+				t.Fatalf("C18: delivered message %d (%x) is not one of the %d written", k, m, n)
+			}
+			i := binary.BigEndian.Uint32(m)
+			if seen[i] {
+				t.Fatalf("C18: message %d was delivered twice (Tick running against Reorder; %d written, %d delivered)", i, n, len(got))
+			}
+			seen[i] = true
+		}
+		if len(got) != n {
+			t.Fatalf("C18: %d messages written, %d delivered although nothing was asked to be dropped (Tick running against Reorder)", n, len(got))
+		}
+		c.Count("messages", int64(n))
+	})
+}
